@@ -160,6 +160,7 @@ struct Result {
 struct Options {
   bool want_output = true;
   bool want_freq = true;
+  bool lenient_crc = false;  // do not fail on CRC mismatches (used to re-seal mutated streams)
 };
 
 namespace detail {
@@ -425,7 +426,7 @@ inline void read_block(BitReader &br, int level, BlockInfo &b, std::string *out,
   }
   b.out_len = produced;
   b.crc_calc = crc.fin();
-  if (b.crc_calc != b.crc_stored) throw Fail{"block CRC mismatch", b.bit_crc};
+  if (b.crc_calc != b.crc_stored && !opt.lenient_crc) throw Fail{"block CRC mismatch", b.bit_crc};
 }
 
 inline Result inspect(const uint8_t *data, size_t n, const Options &opt = Options()) {
@@ -463,7 +464,7 @@ inline Result inspect(const uint8_t *data, size_t n, const Options &opt = Option
           S.crc_stored = br.get(32);
           if (br.over) throw Fail{"unexpected end of input in stream CRC", S.bit_crc};
           S.crc_calc = comb;
-          if (S.crc_stored != comb) throw Fail{"stream CRC mismatch", S.bit_crc};
+          if (S.crc_stored != comb && !opt.lenient_crc) throw Fail{"stream CRC mismatch", S.bit_crc};
           break;
         }
         if (magic != 0x314159265359ull) throw Fail{"bad block header magic", at};
